@@ -119,9 +119,9 @@ mut("c13-set-order-again", "C13", SIR, "        ordered_words = sorted(sensitive
 mut("c13-global-reserved-again", "C13", AF, "        self.reserved_words = set(default_reserved_words)\n", "        self.reserved_words = default_reserved_words\n", "user reserved words leak into the shared default set again", also=[])
 mut("c13-sha512-random-salt", "C13", SIR, 'sha512_crypt.using(rounds=5000, salt="0" * 16)', "sha512_crypt.using(rounds=5000)", "sha512 replacements salted randomly again", also=["C07", "C12"])
 # ---- C14
-mut("c14-prefix-group-unguarded", "C14", SIR, '            prefix = match.group("prefix") if "prefix" in match.groupdict() else ""', '            prefix = match.group("prefix")',
+mut("c14-prefix-group-unguarded", "C14", SIR, '                prefix = m.group("prefix") if "prefix" in m.groupdict() else ""', '                prefix = m.group("prefix")',
     "patterns without a prefix group raise IndexError", also=["C07"])
-mut("c14-template-again", "C14", SIR, "            output_line = compiled_re.sub(lambda _: anon_val, output_line)", "            output_line = compiled_re.sub(anon_val, output_line)", "replacement template interprets backslashes again", also=["C12"])
+mut("c14-template-again", "C14", SIR, "            output_line = compiled_re.sub(_anonymize_match, output_line)", "            output_line = compiled_re.sub(_anonymize_match(match), output_line)", "replacement template interprets backslashes again (and every match gets the first one's value)", also=["C12"])
 mut("c14-lookup-before-none-check", "C14", SIR, "    elif decrypted in lookup:", "    elif lookup.get(decrypted[:0] + decrypted if decrypted is not None or val.startswith('$9') else None):", "malformed $9$ raises TypeError", also=[])
 # ---- C15
 mut("c15-v6-suffix-only-with-words", "C15", AF, "                self.salt, preserve_suffix=preserve_suffix_v6\n", "                self.salt, preserve_suffix=preserve_suffix_v6 if sensitive_words is None else None\n",
